@@ -257,4 +257,54 @@ theorem deepIffCanon (t : Tree) : DeepIffCanon t := by
     simp only [Tree.value, Tree.kids] at hv
     rw [hv, hl]
 
+/-! ### Every node kind -/
+
+theorem cvalue_isNormal_eq {v w : Value} {ks js : List Tree} (h : cvalue v ks = cvalue w js) :
+    v.isNormal = w.isNormal := by
+  cases v <;> cases w <;> simp [cvalue, Value.isNormal, Value.category] at h ⊢
+
+theorem kids_nil_of_abnormal {t : Tree} (hv : t.valid = true) (h : ¬ t.value.isNormal = true) : t.kids = [] := by
+  obtain ⟨v, ks⟩ := t
+  obtain ⟨_, _, hl, _⟩ := valid_node hv
+  rcases hl with hl | hl
+  · exact absurd hl h
+  · exact hl
+
+/-- On valid trees, when one of the nodes is an attribute / namespace node, equality of the
+    canonical forms is equality of the canonical values (such nodes are leaves). -/
+theorem canon_eq_iff_cvalue_of_abnormal {a b : Tree} (va : a.valid = true) (vb : b.valid = true)
+    (h : ¬ a.value.isNormal = true ∨ ¬ b.value.isNormal = true) :
+    canon a = canon b ↔ cvalue a.value a.kids = cvalue b.value b.kids := by
+  obtain ⟨v, ks⟩ := a
+  obtain ⟨w, js⟩ := b
+  simp only [canon, Canon.node.injEq, Tree.value, Tree.kids]
+  constructor
+  · exact fun h => h.1
+  · intro hc
+    refine ⟨hc, ?_⟩
+    have hn := cvalue_isNormal_eq hc
+    simp only [Tree.value] at h
+    have ha : ¬ v.isNormal = true := by rcases h with h | h; exact h; rw [hn]; exact h
+    have hb : ¬ w.isNormal = true := by rw [← hn]; exact ha
+    have e1 := kids_nil_of_abnormal va (by simpa [Tree.value] using ha)
+    have e2 := kids_nil_of_abnormal vb (by simpa [Tree.value] using hb)
+    simp only [Tree.kids] at e1 e2
+    subst e1 e2; rfl
+
+/-- `deep_equal` on any two nodes of valid trees holds exactly when the canonical forms agree. -/
+theorem deepEqual_iff_canon (a b : Tree) (va : a.valid = true) (vb : b.valid = true) :
+    deepEqual a b = true ↔ canon a = canon b := by
+  unfold deepEqual
+  by_cases h : a.value.isNormal = true ∧ b.value.isNormal = true
+  · rw [advancedDeepEqual_eq _ _ _ _ h.1 h.2]
+    exact deepIffCanon a b va vb h.1 h.2
+  · have h' : ¬ a.value.isNormal = true ∨ ¬ b.value.isNormal = true := by
+      by_cases ha : a.value.isNormal = true
+      · exact Or.inr (fun hb => h ⟨ha, hb⟩)
+      · exact Or.inl ha
+    rw [advancedDeepEqual_abnormal _ _ _ _ h', canon_eq_iff_cvalue_of_abnormal va vb h']
+    obtain ⟨oa, na, _, _⟩ := valid_node (v := a.value) (ks := a.kids) (by cases a; exact va)
+    obtain ⟨ob, nb, _, _⟩ := valid_node (v := b.value) (ks := b.kids) (by cases b; exact vb)
+    exact compareValue_strEq_iff oa ob na nb
+
 end XotModel
